@@ -208,12 +208,17 @@ theorem save_last_shape (a : Arena) (m : Nat) (hm : a.bufs.length = m + 1) :
       simp [List.append_assoc]
 
 /-- **the size of the last buffer raised**: accepted exactly when a whole number of relocation entries is swallowed -/
-theorem save_patch_size_raised_iff (cfg : LoaderCfg) (hh : Hardened cfg) (alloc : Nat → Nat) (hnz : ∀ i, alloc i ≠ 0) {a : Arena} (h : WF a)
+theorem save_patch_size_raised (cfg : LoaderCfg) (hh : Hardened cfg) (alloc : Nat → Nat) (hnz : ∀ i, alloc i ≠ 0) {a : Arena} (h : WF a)
     (hs2 : ∀ b ∈ a.bufs, b.data.length ≤ 2 ^ 31) (m : Nat) (hm : a.bufs.length = m + 1) (z : Nat) (hz : z < 2 ^ 32)
     (hgt : (a.bufAt m).data.length < z) :
-    (∃ A, load cfg alloc (patch (save a) (sizeFieldAt m) (leBytes 4 z)) = .ok A ∧
-        A.relocs = a.relocs.drop ((z - (a.bufAt m).data.length) / 8)) ↔
-      ((z - (a.bufAt m).data.length) % 8 = 0 ∧ z - (a.bufAt m).data.length ≤ 8 * a.relocs.length ∧ CapOk z) := by
+    ((∃ A, load cfg alloc (patch (save a) (sizeFieldAt m) (leBytes 4 z)) = .ok A) ↔
+      ((z - (a.bufAt m).data.length) % 8 = 0 ∧ z - (a.bufAt m).data.length ≤ 8 * a.relocs.length ∧ CapOk z)) ∧
+    (((z - (a.bufAt m).data.length) % 8 = 0 ∧ z - (a.bufAt m).data.length ≤ 8 * a.relocs.length ∧ CapOk z) →
+      ∃ A, load cfg alloc (patch (save a) (sizeFieldAt m) (leBytes 4 z)) = .ok A ∧
+        A.relocs = a.relocs.drop ((z - (a.bufAt m).data.length) / 8)) ∧
+    (¬ ((z - (a.bufAt m).data.length) % 8 = 0 ∧ z - (a.bufAt m).data.length ≤ 8 * a.relocs.length ∧ CapOk z) →
+      load cfg alloc (patch (save a) (sizeFieldAt m) (leBytes 4 z)) =
+        .error (if CapOk z then .corruptFile else .insufficientMemory)) := by
   obtain ⟨dpre, dlast, hds, hpl, hdl, hdpre, hsave⟩ := save_last_shape a m hm
   have hn : dpre.length + 1 ≤ maxBuffers := by rw [hpl, ← hm]; exact h.count
   have hs : ∀ d ∈ dpre, d.length ≤ 2 ^ 31 := by
@@ -222,13 +227,12 @@ theorem save_patch_size_raised_iff (cfg : LoaderCfg) (hh : Hardened cfg) (alloc 
     rw [he]; exact hs2 b hb
   subst hpl
   rw [hsave, ← hdl]
-  constructor
-  · rintro ⟨A, hA, _⟩
-    apply Classical.byContradiction
-    intro hbad
-    rw [load_patch_size_raised_bad cfg hh alloc dpre dlast hn hs a.relocs z hz (by rw [hdl]; exact hgt) hbad] at hA
-    cases hA
-  · rintro ⟨h8, hle, hcap⟩
+  have hgood' : ((z - dlast.length) % 8 = 0 ∧ z - dlast.length ≤ 8 * a.relocs.length ∧ CapOk z) →
+      ∃ A, load cfg alloc (patch (header (dpre.length + 1) ++
+        (table (headerSize + tableEntrySize * (dpre.length + 1)) (dpre.map (·.length) ++ [dlast.length]) ++
+          (dpre.flatten ++ (dlast ++ relocBytes a.relocs)))) (sizeFieldAt dpre.length) (leBytes 4 z)) = .ok A ∧
+        A.relocs = a.relocs.drop ((z - dlast.length) / 8) := by
+    rintro ⟨h8, hle, hcap⟩
     obtain ⟨hin, hgood⟩ := saved_slots_good h
     rw [hds] at hin hgood
     have hzj : dlast.length + 8 * ((z - dlast.length) / 8) = z := by rw [hdl] at h8 ⊢; omega
@@ -236,6 +240,25 @@ theorem save_patch_size_raised_iff (cfg : LoaderCfg) (hh : Hardened cfg) (alloc 
       (by rw [hzj]; exact ⟨hz, hcap⟩) h.slots.1 hin hgood
     rw [hzj] at this
     exact this
+  have hbad' : ¬ ((z - dlast.length) % 8 = 0 ∧ z - dlast.length ≤ 8 * a.relocs.length ∧ CapOk z) →
+      load cfg alloc (patch (header (dpre.length + 1) ++
+        (table (headerSize + tableEntrySize * (dpre.length + 1)) (dpre.map (·.length) ++ [dlast.length]) ++
+          (dpre.flatten ++ (dlast ++ relocBytes a.relocs)))) (sizeFieldAt dpre.length) (leBytes 4 z)) =
+        .error (if CapOk z then .corruptFile else .insufficientMemory) := by
+    intro hbad
+    rw [load_patch_size_raised_bad cfg hh alloc dpre dlast hn hs a.relocs z hz (by rw [hdl]; exact hgt) hbad]
+    unfold CapOk
+    by_cases hc : newCap loadInitialSize 0 0 z > 2 ^ maxBufferSizeLog2
+    · simp [hc]
+    · simp [hc]
+  refine ⟨⟨?_, fun hc => ?_⟩, hgood', hbad'⟩
+  · rintro ⟨A, hA⟩
+    apply Classical.byContradiction
+    intro hbad
+    rw [hbad' hbad] at hA
+    cases hA
+  · obtain ⟨A, hA, _⟩ := hgood' hc
+    exact ⟨A, hA⟩
 
 /-- **the size of the last buffer lowered** -/
 theorem save_patch_size_lowered (cfg : LoaderCfg) (alloc : Nat → Nat) {a : Arena} (hn : a.bufs.length ≤ maxBuffers)
